@@ -502,7 +502,7 @@ def main():
         }],
         "checks": checks,
         "not_applicable": na,
-        "notes": "Defects repaired by fix: commits in /repo (status fixed) and the known findings (status known: C06 adaptive RKF45 estimate-as-bound, two C08 tolerance corners, C19 cylindrical component order) are listed in known_findings.json; see DESIGN.md sections 7 and 11. Independent seeded changes and the outcome of the checks against them are under seeded/.",
+        "notes": "Defects repaired by fix: commits in /repo (status fixed) and the known findings (status known; each with a narrow key, a concrete failing input in its summary and, where the model can express it, a kernel-checked witness theorem) are listed in known_findings.json; see DESIGN.md sections 7 and 11. Independent seeded changes and the outcome of the checks against them are under seeded/.",
     }
     with open(os.path.join(HERE, "MANIFEST.json"), "w") as fh:
         json.dump(m, fh, indent=1)
